@@ -172,3 +172,51 @@ Definition multi_ok (ds : list (list N)) (seen : list (nat * list N)) : bool :=
                     | Some d => bytes_eqb d (snd x)
                     | None => false
                     end) seen.
+
+(* ---------------------------------------------------------------------------------------- *)
+(* A whole call of Execute.
+   chains/evm/executor/executor.go  Execute
+     batches := proposalBatches(proposals)             (the first batch is EMPTY when the first pending
+                                                        proposal alone reaches transactionMaxGas)
+     for i, batch := range batches { if len(batch.proposals) == 0 { continue }
+       i := i; b := batch
+       p.Go(func() { propHash := e.bridge.ProposalsHash(b.proposals)      the digest of ITS batch
+                     sessionID := <messageID>-<i>; signing.NewSigning(propHash, ..., sessionID, ...) ... }) }
+   [bs] = the batch list (possibly with empty batches); one session per non-empty batch, each with the
+   digest of its own batch. *)
+Definition nonempty_batch (b : list proposal) : bool := match b with [] => false | _ => true end.
+
+Section Exec.
+  Variable H : list N -> list N.
+
+  (* SPECIFICATION of what was observed of a whole call: every session satisfies [session_ok], and the
+     call did not crash (a Go panic while the digests are obtained and handed over leaves batches without
+     the value that was to be signed for them) *)
+  Definition exec_ok (d : domain) (ss : list session) (crashed : bool) : bool :=
+    forallb (session_ok H d) ss && negb crashed.
+
+  (* as coded: (sessions, crashed) *)
+  Definition model_exec (d : domain) (bs : list (list proposal)) : list session * bool :=
+    (map (model_session H d) (filter nonempty_batch bs), false).
+
+  (* NOT the code: the digests of the non-empty batches are computed up front into a slice
+     (hashes = append(hashes, ProposalsHash(batch)) for every non-empty batch) and the session of the batch at
+     position i of the UNFILTERED list takes hashes[i]; a Go index out of range panics.  Kept to state what
+     goes wrong with it (C02_filtered_index_refuted) and when nothing shows (C02_filtered_index_no_empty). *)
+  Fixpoint indexed_sessions (d : domain) (hashes : list (list N)) (i : nat) (bs : list (list proposal))
+    : list session * bool :=
+    match bs with
+    | [] => ([], false)
+    | b :: r =>
+        let rest := indexed_sessions d hashes (S i) r in
+        if nonempty_batch b then
+          match nth_error hashes i with
+          | Some h => ({| s_batch := b; s_signed := h; s_submitted := b |} :: fst rest, snd rest)
+          | None => (fst rest, true)
+          end
+        else rest
+    end.
+
+  Definition filtered_index_exec (d : domain) (bs : list (list proposal)) : list session * bool :=
+    indexed_sessions d (map (digest H d) (filter nonempty_batch bs)) 0 bs.
+End Exec.
